@@ -364,7 +364,14 @@ class ExprMixin:
         return isinstance(n, ast.Subscript)
 
     def ev_IfExp(self, e, st):
-        if self.specmode or (self.is_pure(e.body) and self.is_pure(e.orelse) and self.is_pure(e.test)):
+        pure = self.specmode or (self.is_pure(e.body) and self.is_pure(e.orelse) and self.is_pure(e.test))
+        if pure and not self.specmode:
+            # a condition that itself forks (and/or over values of different types) is handled by the forking path below
+            saved_obls = len(self.obls)
+            probe = list(self.ev(e.test, st.copy()))
+            del self.obls[saved_obls:]
+            pure = len(probe) == 1
+        if pure:
             t = self.truthy(self.ev1(e.test, st), st)
             if self.specmode:
                 a, b = self.ev1(e.body, st), self.ev1(e.orelse, st)
@@ -739,9 +746,10 @@ class ExprMixin:
             ty = {'INT': INT, 'STR': STR, 'BOOL': BOOL, 'ANYV': ANY}[it.id]
             v = fresh(gen.target.id, sort_of(ty))
             return [v], z3.BoolVal(True), {gen.target.id: SV(ty, v)}, None
-        if isinstance(it, ast.Name) and it.id.isupper() and it.id.endswith('S') and it.id[:-1].capitalize() in self.reg.classes and it.id not in st.env:
+        cls_by_upper = {c.upper() + 'S': c for c in self.reg.classes}
+        if isinstance(it, ast.Name) and it.id in cls_by_upper and it.id not in st.env:
             # NODES: every (possibly null) reference viewed at class Node (spec only)
-            ty = TOpt(TObj(it.id[:-1].capitalize()))
+            ty = TOpt(TObj(cls_by_upper[it.id]))
             v = fresh(gen.target.id, sort_of(ty))
             return [v], z3.BoolVal(True), {gen.target.id: SV(ty, v)}, None
         if isinstance(it, ast.Call) and isinstance(it.func, ast.Name) and it.func.id == 'range':
